@@ -1,6 +1,6 @@
 """C05 — a run always terminates, stops triggering on time, and leaves nothing running."""
 ID = "C05"
-PROPS = ["F1Verif.Props.C05"]
+PROPS = ["F1Verif.Props.C05", "F1Verif.Props.FactsC05"]
 ALSO = ["F1Verif.Props.C18", "F1Verif.Props.Pool"]
 RULE = ("engine C: whole runs of the real Run.Do over (mode: constant, staged, ramp, gaussian, users, file) x (ending: "
         "max-duration, trigger duration, max-iterations, cancel at a seeded instant, setup failure, completion timeout with "
